@@ -1298,6 +1298,10 @@ func (ex *Exec) callBuiltin(caller *frame, fn *ssa.Builtin, args []value) value 
 				*dst.at(i) = tmp[i]
 			}
 		}
+		if n > 0 && dst.b != nil && dst.b.file != nil {
+			// a store through a shared file mapping is a file-system effect
+			ex.fsEffect(fmt.Sprintf("mmap write %s @%d +%d", ex.fs.nameOf(dst.b.file), dst.off, n))
+		}
 		return n
 
 	case "close":
